@@ -40,7 +40,8 @@ RULE = ('roots = (table type x row count 0..N x construction route {constructor,
         'constructing operations, rows == model, operands unchanged; states merged on (model rows, per-column representation '
         'signature); every new state is observed with len, t[i] for first/middle/last/-1/np.int64, iteration, tolist, todict, '
         'topandas.  Construction clause: every (declared kind x wrongly typed argument) pair through constructor and replace. '
-        'Non-trivial = a history of length >= 2 that reached a new non-empty state, or a construction case that did not raise')
+        'Non-trivial = a history of length >= 2 that reached a new non-empty state, or a construction case that did not raise. '
+        'States are counted per explored root (and per part of a root whose first operations are split over several shards)')
 ASSUMPTIONS = [
     'values are drawn from fixed per-kind menus (models/tablemodel.py); tables larger than the row bound are reached only by concatenation',
     'value-level comparison (1 == 1.0 == True; a stored int array in a float column is accepted, a float/str array in an int column is not)',
@@ -54,13 +55,18 @@ ASSUMPTIONS = [
 ]
 EXPLANATION = ('explicit-state search over operation histories on real table objects with a list-of-tuples model stepped in lock-step, '
                'plus exhaustive enumeration of wrongly typed constructor arguments')
-MANIFEST_TEXT = ('Explicit-state exploration of operation histories (depth 2..3 quick / 3..4 thorough) over indexing, masking, slicing, '
-                 'concatenation, sort_by, replace, add_fields and the row/dict/pandas round trips on every table class of '
-                 'bionumpy.datatypes and on dynamically made classes covering all column kinds, 0..3 (quick) / 0..4 (thorough) rows, '
-                 'built by constructor, from_entry_tuples, from_dict and empty(): after every transition the columns must have equal '
-                 'length, the rows must equal a list-of-tuples model, the operands must be unchanged; every new (rows, representation) '
-                 'state is observed through scalar indexing, iteration, tolist, todict and topandas. All wrongly typed constructor '
-                 'arguments from a fixed menu must be converted to the declared type or rejected.')
+MANIFEST_TEXT = ('Explicit-state exploration of operation histories over indexing (slices, step, reverse, masks, integer lists), '
+                 'np.concatenate (self, root, view, reversed, empty), sort_by, bnp.replace, add_fields and the row/dict/pandas round trips '
+                 'on every table class of bionumpy.datatypes and on dynamically made classes covering all column kinds (str, SequenceID, '
+                 'int, float, bool, Optional, List[int], List[str], alphabet/numeric/genotype encodings, nested table), built with 0..3 '
+                 '(quick) / 0..4 (thorough) rows by constructor, from_entry_tuples, from_dict and empty(). Quick: depth 2 for every type, '
+                 'depth 3 for the one-column table of every basic kind and two multi-column types, depth 1 from every small root. '
+                 'Thorough: depth 3 for 15 kind-rich types and every one-column table, depth 4 for five one-column tables (one per column '
+                 'representation), depth 2 for the remaining datatypes and from empty()/4-row roots. After every transition the columns must '
+                 'have equal length, the rows must equal a list-of-tuples model and the operands must be unchanged; every new (rows, '
+                 'representation) state is observed through t[i], iteration, tolist, todict and topandas; states are merged on (model rows, '
+                 'per-column representation signature). Every wrongly typed constructor argument of a fixed menu (12 declared kinds x 20 '
+                 'arguments x constructor/replace) must be converted to the declared type or rejected.')
 MANIFEST_NOTE = ('Trusted: NumPy, pandas, CPython, engine/observe.py, models/tablemodel.py. Values come from fixed menus; depth and '
                  'row count bound the space; third-party npstructures scalar-index breakage is given its own signature.')
 
@@ -477,7 +483,8 @@ def type_ok(kind, col):
     T = _bnp()
     enc = (T['EncodedArray'], T['EncodedRaggedArray'])
     if is_table_kind(kind):
-        return isinstance(col, decl_type(kind))
+        # any table object is accepted (the lazy VCF reader fills a nested INFO column with a class of its own)
+        return isinstance(col, T['BNPDataClass'])
     if kind in ('int', 'optint', 'bool', 'float', 'optfloat'):
         if not isinstance(col, np.ndarray) or col.ndim != 1:
             return False
@@ -739,7 +746,9 @@ def type_features(kind, col):
     d = feat_kind(kind)
     st = stored_class(col)
     if d in ('int', 'float', 'bool'):
-        return {'declared': 'numeric', 'given': 'float' if st == 'float' else 'non-numeric'}
+        # Optional[...] columns are a class of their own: the repository's own tests build Bed6 tables with score='.'
+        return {'declared': 'optional-numeric' if kind_name(kind) in ('optint', 'optfloat') else 'numeric',
+                'given': 'float' if st == 'float' else 'non-numeric'}
     if d == 'ragged-num':
         return {'declared': d, 'given': 'float' if st in ('float', 'ragged-float') else 'flat' if st in ('int', 'bool') else 'non-numeric'}
     if d == 'table':
@@ -793,8 +802,6 @@ def op_label(op):
         return '%s:%s' % (k, op[1])
     if k == 'add':
         return 'add:' + op[1]
-    if k == 'replace':
-        return 'replace:' + op[2]
     return k
 
 
@@ -1155,7 +1162,7 @@ def explore(res, tname, n, route, depth, deadline, split=(0, 1)):
             res.transitions += r['calls']
             case = {'type': tname, 'n': n, 'route': route, 'hist': [list(o) for o in hist]}
             for (kind, feats, exp, obs, tb) in r['fails']:
-                res.fail(kind, case, feats, expected=exp, observed=obs, tb=tb)
+                res.fail(kind, case, feats, expected=_jsonable(exp), observed=_jsonable(obs), tb=_jsonable(tb))
             last = op_label(hist[-1]) if hist else 'root'
             if r['status'] == 'fail':
                 res.outcome('fail:%s:%s' % (last, r['fails'][-1][0]))
@@ -1284,7 +1291,7 @@ def run_construct(res, deadline):
                     res.nontrivial += 1
                 res.outcome('construct:%s<-%s:%s' % (declared, GIVEN_CLASS[given], status))
                 if fail is not None:
-                    res.fail(fail[0], case, fail[1], expected=fail[2], observed=fail[3], tb=fail[4])
+                    res.fail(fail[0], case, fail[1], expected=_jsonable(fail[2]), observed=_jsonable(fail[3]), tb=_jsonable(fail[4]))
     res.sample({'construct': 'every declared kind x given argument x {ctor, replace}', 'declared': DECLARED, 'given': GIVEN})
 
 
@@ -1296,6 +1303,9 @@ DEEP_TYPES = ['DynAll', 'DynNested', 'DynMade', 'DynOptFloat', 'DynExtended', 'B
 QUICK_DEEP_CORE = ['DynMade']
 QUICK_DEEP_ROTATION = ['SequenceEntry', 'Interval', 'DynOptFloat', 'GfaPath', 'DynNested', 'SequenceEntryWithQuality']
 SPLIT = 4
+# one-column tables explored to depth 4 in the thorough tier: one per column representation (ragged text, string array,
+# plain ndarray, ragged numbers, flat encoded)
+THOROUGH_DEPTH4 = ['K_str', 'K_id', 'K_int', 'K_intlist', 'K_strand']
 
 
 def bounds(tier, seed):
@@ -1311,8 +1321,9 @@ def bounds(tier, seed):
                 'extension_slice': 'depth 3 for one further type rotated by seed: ' + ext,
                 'construction': '%d declared kinds x %d given arguments x 2 routes' % (len(DECLARED), len(GIVEN))}
     return {'types': names, 'root_rows': [0, 1, 2, 3, 4], 'routes': ROUTES + ['empty'],
-            'depth4_types': singles, 'depth3_types': DEEP_TYPES, 'depth2_types': [n for n in names if n not in DEEP_TYPES and n not in singles],
-            'other_roots': 'depth 1 from every root of 0,1,2,3,4 rows x 3 routes and empty(); depth 2 from empty(), 1-row and 4-row constructor roots',
+            'depth4_types': THOROUGH_DEPTH4, 'depth3_types': DEEP_TYPES + [n for n in singles if n not in THOROUGH_DEPTH4],
+            'depth2_types': [n for n in names if n not in DEEP_TYPES and n not in singles],
+            'other_roots': 'depth 1 from every root of 0,1,2,3,4 rows x 3 routes and empty(); depth 2 from empty() and the 4-row constructor root',
             'construction': '%d declared kinds x %d given arguments x 2 routes' % (len(DECLARED), len(GIVEN))}
 
 
@@ -1337,8 +1348,8 @@ def shards(tier, seed):
         else:
             deep = 4 if tname in b['depth4_types'] else 3 if tname in b['depth3_types'] else 2
             split = SPLIT if deep >= 3 else 1
-            small = [[0, 'empty', 2], [1, 'ctor', 2], [4, 'ctor', 2]] + [[n, r, 1] for n in (0, 2) for r in ROUTES] + \
-                    [[n, r, 1] for n in (1, 4) for r in ROUTES[1:]] + [[3, r, 1] for r in ROUTES[1:]]
+            small = [[0, 'empty', 2], [4, 'ctor', 2]] + [[n, r, 1] for n in (0, 1, 2) for r in ROUTES] + \
+                    [[n, r, 1] for n in (3, 4) for r in ROUTES[1:]]
         for i in range(split):
             items.append((_cost(tname, deep, split), {'type': tname, 'roots': [[3, 'ctor', deep]], 'split': [i, split]}))
         items.append((sum(_cost(tname, r[2]) for r in small), {'type': tname, 'roots': small, 'split': [0, 1]}))
@@ -1383,20 +1394,33 @@ def replay_case(case):
         c = case['construct']
         status, fail, _ = construct_case(c['declared'], c['given'], c['route'])
         if fail is not None:
-            out.append({'kind': fail[0], 'features': fail[1], 'expected': fail[2], 'observed': fail[3], 'traceback': fail[4]})
+            out.append({'kind': fail[0], 'features': fail[1], 'expected': _jsonable(fail[2]), 'observed': _jsonable(fail[3]),
+                        'traceback': _jsonable(fail[4])})
         return out
     r = run_history(case['type'], case['n'], case['route'], [tuple(o) for o in case['hist']], full_obs='always', judge_prefix=True)
     for (kind, feats, exp, obs, tb) in r['fails']:
-        out.append({'kind': kind, 'features': feats, 'expected': _jsonable(exp), 'observed': _jsonable(obs), 'traceback': tb})
+        out.append({'kind': kind, 'features': feats, 'expected': _jsonable(exp), 'observed': _jsonable(obs), 'traceback': _jsonable(tb)})
     return out
 
 
+_ADDRESS = None
+
+
 def _jsonable(v):
+    """JSON-able copy with memory addresses blanked (exception texts and object reprs carry them; the replay gate compares
+    the observations of two fresh processes literally)"""
     import json
+    import re
+    global _ADDRESS
+    if _ADDRESS is None:
+        _ADDRESS = re.compile(r'0x[0-9a-fA-F]{3,}')
+    if v is None:
+        return None
     try:
-        return json.loads(json.dumps(v, default=repr))
+        text = json.dumps(v, default=repr)
     except Exception:
-        return repr(v)
+        text = json.dumps(repr(v))
+    return json.loads(_ADDRESS.sub('0x..', text))
 
 
 def repro_py(case):
